@@ -28,6 +28,22 @@ def plan_total(key):
 def _viol(p):
     t = p["tags"]
     o = p["outcome"]
+    call = p.get("call", "")
+    if call.endswith("from_bytes") or call.endswith("from_coordinates") or call.endswith("from_bytes_be"):
+        # decoder probes: never panic; an accepted string must re-encode to itself; forbidden / non-canonical strings must be
+        # refused; the honest encoding must be accepted
+        if o.startswith("panic:"):
+            return True
+        ok = o.startswith("ok:")
+        if "exact" in t:
+            return not (ok and o[3:] == p["inputs"][0])
+        if ok and o[3:] != p["inputs"][0]:
+            return True
+        # (truncations / extensions by whole scalars are valid encodings of OTHER objects for the variable-length codecs:
+        #  only the re-encoding test applies to them)
+        return ok and any(x.startswith("forbidden") or x in ("noncanonical", "swapped") for x in t)
+    if "forgery" in t:
+        return o.startswith("ok:") or o.startswith("panic:")
     if "expect-accept" in t or "expect-reject" in t:
         # CL03 probes: a panic of a verifier / issuer is a refusal; edits of fields no verifier reads are not edits of the statement
         if "unused-field" in t:
@@ -44,7 +60,7 @@ PREFIX_FAMILIES = [
     ("C03.", ["proof_complete"]), ("C04.proof_verify", ["proof_sound", "proof_complete", "forgery"]), ("C04.", ["proof_sound", "forgery"]),
     ("C05.cverify", ["blind_sound", "blind_complete"]), ("C05.validate", ["blind_sound", "blind_complete"]), ("C05.bverify", ["blind_sound", "blind_complete"]),
     ("C05.blind_proof_verify", ["blind_sound", "blind_complete"]), ("C05.", ["blind_complete"]), ("C06.", ["blind_sound"]), ("C07.", ["fresh"]), ("C12.", ["update_history", "update_signature"]),
-    ("C10.domain", ["sig_complete", "proof_complete"]), ("C10.h2s", ["sig_complete"]), ("C10.challenge", ["proof_complete", "proof_sound"]),
+    ("C10.domain", ["sig_complete", "proof_complete"]), ("C10.h2s", ["limits", "sig_complete"]), ("C10.keygen", ["limits", "sig_complete"]), ("C10.challenge", ["proof_complete", "proof_sound"]),
     ("C10.blind_challenge", ["blind_complete", "blind_sound"]), ("C10.generators", ["generators", "sig_complete", "blind_complete"]),
     ("C10.msgs_to_scalars", ["sig_complete", "sig_binding"]), ("C10.map_msg", ["update_history"]), ("C10.", ["sig_complete", "proof_complete"]),
     ("C11.", ["generators", "sig_binding", "proof_sound"]),
